@@ -19,6 +19,7 @@ package compose
 import (
 	"fmt"
 
+	"github.com/cloudwego/eino/components/document"
 	"github.com/cloudwego/eino/internal/serialization"
 )
 
@@ -189,4 +190,7 @@ func init() {
 	serialization.GenericRegister[pregelChannel]("_eino_pregel_channel")
 	serialization.GenericRegister[dependencyState]("_eino_dependency_state")
 	serialization.GenericRegister[nilStreamValue]("_eino_nil_stream_value")
+	// the input of a Loader node: the only input/output type of the built-in components that the
+	// serialization package (which cannot import the components) does not register itself
+	serialization.GenericRegister[document.Source]("_eino_document_source")
 }
